@@ -53,6 +53,9 @@ def one(e, base):
     elif e.get('generator') == 'py-temps':
         from py_temps import main as pytemps
         pytemps(d)
+    elif e.get('generator') == 'split-conditions':
+        from split_conditions import main as splitc
+        splitc(d)
     elif e.get('generator') == 'insert-noops':
         from insert_noops import main as noops
         noops(d)
